@@ -63,6 +63,7 @@ package vm
 //@ func value.(Type).Eq trusted pure
 //@ func value.(*Type).SetFrame trusted
 //@   modifies *t
+//@   ensures snd2(t.ToFunction()) == old(snd2(t.ToFunction())) && fst2(t.ToFunction()).Frame == frame
 //@ func memory.(*Type).DumpStack trusted pure
 //
 // ---- the compiler/VM interface --------------------------------------------------------------------
@@ -121,6 +122,10 @@ package vm
 //@   loop 1 invariant -1 <= rangeindex__2 && rangeindex__2 < end - start
 //@   loop 2 invariant true
 //
+// A returned value is detached when, being a closure, its captured frame is storage allocated by
+// this very RET (or empty).
+//@ pred detached(v value.Type) bool := snd2(v.ToFunction()) && fst2(v.ToFunction()).Frame != nil ==> len(*fst2(v.ToFunction()).Frame) == 0 || fresh(*fst2(v.ToFunction()).Frame)
+//
 // The run loop.
 //@ func (*Type).Run [C05,C10,C04,C03,C18,C02,C09,C17,C19]
 //@   checks panic [C05]
@@ -133,9 +138,12 @@ package vm
 // C10: the array built by an array-literal step is new storage, whatever its operands were.
 //@   atcall value.NewArray(slc) with (callee_a []value.Type) requires[array_is_fresh;C10] fresh(callee_a)
 //
-// C04/C03: a function value that leaves its defining call takes its own copy of the frame it captured.
-//@   atcall val.SetFrame(&frame) #2 with (callee_frame *[]value.Type) requires[returned_closure_detached;C04,C03] (len(*callee_frame) == 0 || fresh(*callee_frame))
-//@       && len(*callee_frame) == len(*f__2.Frame) && (forall j :: 0 <= j && j < len(*callee_frame) ==> (*callee_frame)[j] == (*f__2.Frame)[j])
+// C04/C03: a function value that leaves its defining call takes its own copy of the frame it captured
+// (the copy is made by RET, which alone pops a frame or resets the stack pointer).
+//@   atcall val.SetFrame(&frame) #2 with (callee_frame *[]value.Type) requires[returned_closure_copied;C04,C03] len(*callee_frame) == len(*f.Frame)
+//@       && (forall j :: 0 <= j && j < len(*callee_frame) ==> (*callee_frame)[j] == (*f.Frame)[j])
+//@   atcall m.PopClosure() with (callee_m *memory.Type) requires[returned_closure_detached;C04,C03] detached(val)
+//@   atcall m.ResetSP() with (callee_m *memory.Type) requires[returned_closure_detached;C04,C03] detached(val)
 //
 // C18/C02: a forked context, new or recycled, is a child of the context that forked it and runs on the cloned memory.
 //@   atcall ctxp.children.Put(ctxHash, childCtx) with (callee_val *context) requires[fork_parent;C18,C02] callee_val.parent == ctxp && callee_val.m == m
